@@ -6,9 +6,9 @@ reg("C08",
     quick=dict(defs=dict(NEMIT=3, DMAX=3, WMAX=6), symx=dict(shards=16, **{"max-wall": 900})),
     thorough=dict(defs=dict(NEMIT=4, DMAX=3, WMAX=8), symx=dict(shards=16, **{"max-wall": 3000, "shard-depth": 8})),
     reach=["end", "with_initial", "without_initial", "back_to_back_writes", "writes_with_gap", "initial_and_write_in_start_cycle",
-           "mutual_loops", "nested_loop", "passive_loop_ran", "active_loop_reticked"],
-    bounds="stdlib::feedback<TS<Int>> in 5 enumerated loop shapes (self loop with active reader writing on script ticks; self loop with PASSIVE reader; "
-           "two mutual loops ticking together; self loop writing on every evaluation; the first shape inside a nested child graph), each with and without a "
+           "mutual_loops", "nested_loop", "passive_loop_ran", "active_loop_reticked", "passive_loop_with_active_twin"],
+    bounds="stdlib::feedback<TS<Int>> in 7 enumerated loop shapes (self loop with active reader writing on script ticks; self loop with PASSIVE reader; "
+           "two mutual loops ticking together; self loop writing on every evaluation; the first shape inside a nested child graph; a passive(fb()) loop with an identical ACTIVE twin node on the same ports, in both wiring orders), each with and without a "
            "declared initial value; a script source with NEMIT emissions: first offset symbolic in [0,DMAX] us from start, later gaps symbolic in [1,DMAX] us "
            "(1 = consecutive smallest steps); emitted values and the initial value symbolic in [-1e6,1e6]; start symbolic in [0,1000] us after MIN_ST; "
            "window length symbolic in [1,WMAX] us",
